@@ -20,7 +20,7 @@ pub const ENTRY: Entry = Entry {
            maxima; thorough: all values). The bus traffic is decoded by an independent MIPI decoder according to the COLMOD the \
            initialisation *announced* (16 bpp: R5G6B5 most-significant byte first / one 16-bit word; 18 bpp: three bytes, six bits \
            left-aligned). Oracle: decoded (r,g,b) == drawn colour; repeat path words == stream path words; announced interface format \
-           matches the colour type. Non-trivial = every value except black.",
+           matches the colour type; fill / stream / fill histories on SPI decode to the fill colour. Non-trivial = every value except black.",
     assumptions: &["independent decoder in ctl.rs; low two bits of 18-bpp bytes are ignored by the controller"],
     run,
 };
@@ -169,7 +169,63 @@ fn run(ctx: &Ctx) -> Part {
             acc
         })
         .reduce(Acc::new, Acc::merge);
-    let mut acc = a.merge(b);
+    // (c) fill / stream / fill histories on the real SPI transport: a solid fill must encode the colour
+    // like a per-pixel stream also when the staging buffer was used by a stream in between (stream lengths
+    // around multiples of the buffer capacity)
+    let mut hjobs = Vec::new();
+    for (c666, len) in [(false, 4u16), (false, 5), (false, 8), (true, 6), (true, 7), (true, 12)] {
+        hjobs.push(Cfg::tiny(4, 3, c666, Transport::Spi { len }, (4, 3, 0, 0), 0));
+    }
+    let c = hjobs
+        .par_iter()
+        .fold(Acc::new, |mut acc, cfg| {
+            let c666 = cfg.c666();
+            let n = if c666 { 3 } else { 2 };
+            let Transport::Spi { len } = cfg.tr else { unreachable!() };
+            let cap = (len / n) as u64;
+            let colours: Vec<u32> = if c666 { vec![0x00000, 0x3FFFF, 0x15A5A, 0x2A000] } else { vec![0x0000, 0xFFFF, 0xA5A5, 0x1234] };
+            for &fill in &colours {
+                for k in [1u64, cap - 1, cap, cap + 1, 2 * cap, 2 * cap + 1, 12] {
+                    if k == 0 || k > 12 {
+                        continue;
+                    }
+                    for first_is_fill in [false, true] {
+                        acc.evaluations += 1;
+                        acc.nontrivial += 1;
+                        let mut rig = Rig::new(cfg);
+                        let stream: Vec<u32> = (0..k).map(|i| if i == 0 && first_is_fill { fill } else { code(0x0101, i * 7 + 1, c666) }).collect();
+                        let (w, h) = if k <= 4 { (k as u32, 1u32) } else { (4, (k as u32).div_ceil(4)) };
+                        let ops = [
+                            Op::Clear { c: fill },
+                            Op::FillContiguous { r: Rect { x: 0, y: 0, w, h }, colors: Colors::List(stream.clone()) },
+                            Op::FillSolid { r: Rect { x: 0, y: 0, w: 4, h: 3 }, c: fill },
+                        ];
+                        let mut ok = true;
+                        for op in &ops {
+                            ok &= rig.apply(op).is_ok();
+                        }
+                        let want = packed_of(c666, fill);
+                        let geo = cfg.geo();
+                        let wrong = (0..3u32).flat_map(|y| (0..4u32).map(move |x| (x, y))).find(|&(x, y)| {
+                            let cc = geo.cell(x, y);
+                            rig.ctl.mem.get(cc.0, cc.1) != want
+                        });
+                        if !ok || wrong.is_some() || !rig.ctl.viols.is_empty() {
+                            acc.violation(Violation {
+                                prop: ctx.prop.clone(),
+                                sig: "encoding/fill-after-stream".into(),
+                                msg: format!("{:?}: clear({fill:#x}), a stream of {k} pixels, fill_solid({fill:#x}): the last fill does not decode to the fill colour everywhere (first wrong pixel {wrong:?}, protocol {:?})", cfg.tr, rig.ctl.viols.first()),
+                                case: json!({"variant": ctx.variant, "cfg": cfg, "faults": [], "history": ops, "checks": "all"}),
+                            });
+                        }
+                        acc.count("fill_stream_fill_histories", 1);
+                    }
+                }
+            }
+            acc
+        })
+        .reduce(Acc::new, Acc::merge);
+    let mut acc = a.merge(b).merge(c);
     acc.transitions = acc.evaluations * 3;
     acc.traces = acc.evaluations;
     acc.sample(json!({"cfg": jobs[0].0, "value": 0xF81F, "operations": ["set_pixel", "fill_solid 1x1", "fill_solid 3x1"]}));
